@@ -1,5 +1,6 @@
 // C03 harness: runs every ring operation (every call form) of /repo's current modular rings.
-// line:  <ring> <p> <op> <args...>      output: one result token (decimal), or several for gcdext/info
+// line:  <ring>[@<how the ring object is obtained>] <p> <op>[:<alias pattern>] <args...>
+// output: one result token (decimal), or several for gcdext/info/consts;   line "ppinfo 0 x": the selected preprocessor branches
 // ring names: <S>_<C> for the integral Modular<S,C>; f_f f_d d_d; bi32 bi64 bf bd; ef ed; zz; ru<K>_<K'>; ri<K>_<K>; log16
 #include <iostream>
 #include <sstream>
@@ -18,6 +19,31 @@
 
 using namespace Givaro;
 typedef std::vector<std::string> Args;
+
+// checks/C03.py copies every preprocessor conditional of the property's anchor files into c03_ppgen.h (generated on every run
+// from /repo's current sources) so that THIS translation unit, compiled with the configuration's flags after the givaro headers,
+// reports which branch of each conditional the compiler selected ("ppinfo").  Without the generated header: a fixed macro list.
+#ifdef C03_HAVE_PPGEN
+#include "c03_ppgen.h"
+#else
+static void c03_ppinfo(std::ostream& o) {
+#ifdef FP_FAST_FMA
+    o << "FP_FAST_FMA=1 ";
+#else
+    o << "FP_FAST_FMA=0 ";
+#endif
+#ifdef FP_FAST_FMAF
+    o << "FP_FAST_FMAF=1 ";
+#else
+    o << "FP_FAST_FMAF=0 ";
+#endif
+#ifdef __SSE_MATH__
+    o << "__SSE_MATH__=1 ";
+#else
+    o << "__SSE_MATH__=0 ";
+#endif
+}
+#endif
 
 // ---------------------------------------------------------------- text <-> element
 template <class T, class En = void> struct IO;
@@ -55,7 +81,10 @@ template <size_t K> struct IO<RecInt::rint<K> > {
 // "copy"  Ring G(p); Ring F(G);            (G destroyed before F is used)
 // "asg"   Ring G(p); Ring F(q), q != p; F = G;      (assignment over a ring of ANOTHER modulus)
 // "asgd"  Ring G(p); Ring F; F = G;                 (assignment over a default-constructed ring)
-static std::string g_mode;
+// "self"  Ring F(p); F = F;                         (self-assignment)
+// "chain" Ring H(p); Ring G(q); Ring F(q'); G = H; F = G;   (H and G destroyed before F is used)
+// "cpasg" Ring H(p); Ring G(H); Ring F(q); F = G;   (assignment from a copy-constructed ring)
+static std::string g_mode, g_alias;
 template <class Ring, class R> static std::unique_ptr<Ring> obtain(const R& p, const R& other) {
     if (g_mode == "") return std::unique_ptr<Ring>(new Ring(p));
     std::unique_ptr<Ring> F;
@@ -63,9 +92,48 @@ template <class Ring, class R> static std::unique_ptr<Ring> obtain(const R& p, c
         Ring G(p);
         if (g_mode == "copy") F.reset(new Ring(G));
         else if (g_mode == "asg") { F.reset(new Ring(other)); *F = G; }
+        else if (g_mode == "self") { F.reset(new Ring(p)); Ring& alias = *F; *F = alias; }
+        else if (g_mode == "chain") { Ring G2(other); F.reset(new Ring(other)); G2 = G; *F = G2; }
+        else if (g_mode == "cpasg") { Ring G2(G); F.reset(new Ring(other)); *F = G2; }
         else { F.reset(new Ring()); *F = G; }
     }
     return F;
+}
+
+
+// ---------------------------------------------------------------- one operation, in one alias pattern
+// alias (suffix ":<pattern>" of the op name): which arguments of the call are THE SAME OBJECT
+//   ra / rb / rc : the destination is the 1st / 2nd / 3rd source operand      ab : 1st and 2nd source are one object
+//   rab : destination, 1st and 2nd source are one object                       (in-place forms: the object r itself is passed as
+//   the 1st (ra) / 2nd (rb) source).  The case generator gives aliased operands equal values.
+template <class Ring, class E> static bool apply_op(const Ring& F, const std::string& op, const std::string& al, E& x, E& y, E& z, E& r, E*& res) {
+    const bool rab = (al == "rab");
+    E& A = x; E& B = (al == "ab" || rab) ? x : y; E& C = z;
+    E& R = (al == "ra" || rab) ? x : (al == "rb" ? y : (al == "rc" ? z : r));
+    res = &R;
+    if (op == "add") F.add(R, A, B);
+    else if (op == "sub") F.sub(R, A, B);
+    else if (op == "mul") F.mul(R, A, B);
+    else if (op == "div") F.div(R, A, B);
+    else if (op == "neg") F.neg(R, A);
+    else if (op == "inv") F.inv(R, A);
+    else if (op == "axpy") F.axpy(R, A, B, C);
+    else if (op == "axmy") F.axmy(R, A, B, C);
+    else if (op == "maxpy") F.maxpy(R, A, B, C);
+    else {
+        res = &r;
+        if (op == "addin") { F.assign(r, x); F.addin(r, al == "rb" ? r : y); }
+        else if (op == "subin") { F.assign(r, x); F.subin(r, al == "rb" ? r : y); }
+        else if (op == "mulin") { F.assign(r, x); F.mulin(r, al == "rb" ? r : y); }
+        else if (op == "divin") { F.assign(r, x); F.divin(r, al == "rb" ? r : y); }
+        else if (op == "negin") { F.assign(r, x); F.negin(r); }
+        else if (op == "invin") { F.assign(r, x); F.invin(r); }
+        else if (op == "axpyin") { F.assign(r, z); F.axpyin(r, al == "ra" ? r : x, al == "rb" ? r : y); }
+        else if (op == "axmyin") { F.assign(r, z); F.axmyin(r, al == "ra" ? r : x, al == "rb" ? r : y); }
+        else if (op == "maxpyin") { F.assign(r, z); F.maxpyin(r, al == "ra" ? r : x, al == "rb" ? r : y); }
+        else return false;
+    }
+    return true;
 }
 
 // ---------------------------------------------------------------- generic runner
@@ -115,28 +183,14 @@ template <class Ring> struct Run {
         F.assign(r, F.mOne);                  // destinations start from a non-zero element
         if (op == "consts") return IO<E>::show(F.zero) + " " + IO<E>::show(F.one) + " " + IO<E>::show(F.mOne) + " " +
                                    IO<E>::show(F.minElement()) + " " + IO<E>::show(F.maxElement()) + " " + IO<R>::show(F.characteristic());
-        else if (op == "add") F.add(r, x, y);
-        else if (op == "addin") { F.assign(r, x); F.addin(r, y); }
-        else if (op == "sub") F.sub(r, x, y);
-        else if (op == "subin") { F.assign(r, x); F.subin(r, y); }
-        else if (op == "mul") F.mul(r, x, y);
-        else if (op == "mulin") { F.assign(r, x); F.mulin(r, y); }
-        else if (op == "neg") F.neg(r, x);
-        else if (op == "negin") { F.assign(r, x); F.negin(r); }
-        else if (op == "inv") F.inv(r, x);
-        else if (op == "invin") { F.assign(r, x); F.invin(r); }
-        else if (op == "div") F.div(r, x, y);
-        else if (op == "divin") { F.assign(r, x); F.divin(r, y); }
-        else if (op == "axpy") F.axpy(r, x, y, z);
-        else if (op == "axpyin") { F.assign(r, z); F.axpyin(r, x, y); }
-        else if (op == "axmy") F.axmy(r, x, y, z);
-        else if (op == "axmyin") { F.assign(r, z); F.axmyin(r, x, y); }
-        else if (op == "maxpy") F.maxpy(r, x, y, z);
-        else if (op == "maxpyin") { F.assign(r, z); F.maxpyin(r, x, y); }
-        else if (op == "reduce2") F.reduce(r, x);
+        else if (op == "reduce2") { if (g_alias == "ra") { F.reduce(x, x); return IO<E>::show(x); } F.reduce(r, x); }
         else if (op == "reduce1") { F.assign(r, x); F.reduce(r); }
         else if (op == "isUnit") return F.isUnit(x) ? "1" : "0";
-        else { std::string o; if (Precomp<Ring>::run(F, op, a, o)) return o; return "UNKNOWN-OP"; }
+        else {
+            E* res = &r;
+            if (apply_op(F, op, g_alias, x, y, z, r, res)) return IO<E>::show(*res);
+            std::string o; if (Precomp<Ring>::run(F, op, a, o)) return o; return "UNKNOWN-OP";
+        }
         return IO<E>::show(r);
     }
 };
@@ -157,28 +211,16 @@ template <> struct Run<Modular<Log16> > {
         if (a.size() > 1) F.init(y, (int32_t) strtol(a[1].c_str(), 0, 10));
         if (a.size() > 2) F.init(z, (int32_t) strtol(a[2].c_str(), 0, 10));
         F.assign(r, F.mOne);
-        if (op == "add") F.add(r, x, y);
-        else if (op == "addin") { F.assign(r, x); F.addin(r, y); }
-        else if (op == "sub") F.sub(r, x, y);
-        else if (op == "subin") { F.assign(r, x); F.subin(r, y); }
-        else if (op == "mul") F.mul(r, x, y);
-        else if (op == "mulin") { F.assign(r, x); F.mulin(r, y); }
-        else if (op == "neg") F.neg(r, x);
-        else if (op == "negin") { F.assign(r, x); F.negin(r); }
-        else if (op == "inv") F.inv(r, x);
-        else if (op == "invin") { F.assign(r, x); F.invin(r); }
-        else if (op == "div") F.div(r, x, y);
-        else if (op == "divin") { F.assign(r, x); F.divin(r, y); }
-        else if (op == "axpy") F.axpy(r, x, y, z);
-        else if (op == "axpyin") { F.assign(r, z); F.axpyin(r, x, y); }
-        else if (op == "axmy") F.axmy(r, x, y, z);
-        else if (op == "axmyin") { F.assign(r, z); F.axmyin(r, x, y); }
-        else if (op == "maxpy") F.maxpy(r, x, y, z);
-        else if (op == "maxpyin") { F.assign(r, z); F.maxpyin(r, x, y); }
+        E* res = &r;
+        if (op == "consts") {
+            int32_t c0, c1, cm; F.convert(c0, F.zero); F.convert(c1, F.one); F.convert(cm, F.mOne);
+            return std::to_string(c0) + " " + std::to_string(c1) + " " + std::to_string(cm) + " 0 " + std::to_string((long) F.characteristic() - 1) + " " + std::to_string((long) F.characteristic());
+        }
+        else if (apply_op(F, op, g_alias, x, y, z, r, res)) { }
         else if (op == "reduce1" || op == "reduce2") F.init(r, (int32_t) strtol(a[0].c_str(), 0, 10));   // no reduce(): init is the reduction
         else if (op == "isUnit") return F.isUnit(x) ? "1" : "0";
         else return "UNKNOWN-OP";
-        int32_t v; F.convert(v, r);
+        int32_t v; F.convert(v, *res);
         return std::to_string(v);
     }
 };
@@ -232,12 +274,17 @@ int main() {
         std::string ring, p, op, t; is >> ring >> p >> op;
         if (!is) continue;
         Args a; while (is >> t) a.push_back(t);
+        if (ring == "ppinfo") { c03_ppinfo(std::cout); std::cout << "\n"; continue; }
+        size_t col = op.find(':');
+        g_alias = (col == std::string::npos) ? "" : op.substr(col + 1);
+        if (col != std::string::npos) op = op.substr(0, col);
         size_t at = ring.find('@');
         g_mode = (at == std::string::npos) ? "" : ring.substr(at + 1);
         if (at != std::string::npos) ring = ring.substr(0, at);
         std::map<std::string, Fn>::iterator it = table.find(ring);
         if (it == table.end()) { std::cout << "UNKNOWN-RING\n"; continue; }
-        std::cout << it->second(p, op, a) << "\n";
+        try { std::cout << it->second(p, op, a) << "\n"; }
+        catch (...) { std::cout << "EXCEPTION\n"; }
     }
     return 0;
 }
